@@ -78,40 +78,97 @@ def _domain(p):
   return {k: p[k] for k in ('lo', 'hi', 'values', 'scale') if k in p}
 
 
-def judge(spec, assignment):
-  """See module doc.  `assignment` is {name: python value}."""
+def judge_all(spec, assignment):
+  """All problems of the assignment: list of (why, param_spec|None, text).
+
+  Empty list = complete member.  One entry per offending parameter, so that
+  one (known) defect on parameter a cannot hide a different one on b.
+  """
   assignment = {k: normalise(v) for k, v in assignment.items()}
   active = []
+  undecided = set()  # descendants of a parent whose own value is unusable
+  problems = []
+
+  def descendants(p):
+    for ch in p.get('children', ()):
+      for q in ch['params']:
+        undecided.add(q['name'])
+        descendants(q)
 
   def rec(params):
     for p in params:
       active.append(p['name'])
       if p['name'] not in assignment:
-        return ('missing', p, 'parameter %r (%s) has no value; keys=%r' % (
-            p['name'], p['kind'], sorted(assignment)))
+        problems.append(('missing', p,
+                         'parameter %r (%s) has no value; keys=%r' % (
+                             p['name'], p['kind'], sorted(assignment))))
+        descendants(p)
+        continue
       v = assignment[p['name']]
       why = value_why(p, v)
       if why:
-        return (why, p, 'parameter %r (%s) value %r outside domain %r' % (
-            p['name'], p['kind'], v, _domain(p)))
+        problems.append((why, p,
+                         'parameter %r (%s) value %r outside domain %r' % (
+                             p['name'], p['kind'], v, _domain(p))))
+        descendants(p)
+        continue
       for ch in p.get('children', ()):
         pv = ch['parent_values']
         if p['kind'] == 'BOOL':
           pv = ['True' if x else 'False' for x in pv]
         if any(v == x for x in pv):
-          r = rec(ch['params'])
-          if r:
-            return r
-    return None
+          rec(ch['params'])
 
-  r = rec(spec['params'])
-  if r:
-    return r
-  extra = [k for k in assignment if k not in active]
+  rec(spec['params'])
+  extra = [k for k in assignment if k not in active and k not in undecided]
   if extra:
-    return ('extra', None, 'keys %r are not (active) parameters; active=%r' % (
-        sorted(extra), active))
-  return None
+    problems.append(('extra', None,
+                     'keys %r are not (active) parameters; active=%r' % (
+                         sorted(extra), active)))
+  return problems
+
+
+def judge(spec, assignment):
+  """First problem or None (see judge_all)."""
+  r = judge_all(spec, assignment)
+  return r[0] if r else None
+
+
+F32_MAX = 3.4028234663852886e38
+F32_TINY = 1.1754943508222875e-38
+
+
+def beyond_float32(p):
+  """Input class: DOUBLE bounds that a float32 cannot represent normally."""
+  if p is None or p['kind'] != 'DOUBLE':
+    return False
+  m = max(abs(p['lo']), abs(p['hi']))
+  if m > F32_MAX:
+    return True
+  nz = [abs(x) for x in (p['lo'], p['hi']) if x != 0]
+  return bool(nz) and min(nz) < F32_TINY
+
+
+def revlog_cancel(p):
+  """Input class: REVERSE_LOG DOUBLE whose lo is lost in lo + hi (float64)."""
+  if p is None or p['kind'] != 'DOUBLE' or p.get('scale') != 'REVERSE_LOG':
+    return False
+  return (p['lo'] + p['hi']) - p['hi'] <= 0.0
+
+
+def range_tags(spec, p):
+  """Numerically hostile input classes, for the bucket name.
+
+  ':own=<tags of the offending parameter>' and ':space=<tags present anywhere
+  in the space>' (a NaN in one coordinate of a joint model contaminates every
+  coordinate); each part only when non-empty; tags in fixed order.
+  """
+  fs = (('beyond_f32', beyond_float32), ('revlog_cancel', revlog_cancel))
+  own = [n for n, f in fs if f(p)]
+  ps = all_params(spec)
+  sp = [n for n, f in fs if any(f(q) for q in ps)]
+  return ((':own=' + '+'.join(own)) if own else '') + (
+      (':space=' + '+'.join(sp)) if sp else '')
 
 
 def all_params(spec):
